@@ -220,6 +220,12 @@ def nss_result_plot(*plot_fs):
 
 
 def nss_result_plot_from_file(sim_results, sim_class, inputs, outputs, plotfs, plot):
+    # A results file holds only the stages that ran: no optical columns for a radio-only
+    # run, no rows when no trajectory survived. There is nothing to plot for those.
+    columns = [n for n in (*(inputs or ()), *(outputs or ())) if isinstance(n, str)]
+    if len(sim_results) == 0 or any(n not in sim_results.colnames for n in columns):
+        return
+
     f_input = tuple() if inputs is None else tuple(sim_results[i] for i in inputs)
     results = tuple() if outputs is None else tuple(sim_results[o] for o in outputs)
 
